@@ -60,13 +60,12 @@ Definition proxy_line (is4 : bool) (caddr saddr cport sport : str) : str :=
 
 Inductive kind := KTcp | KSni | KDyn | KWs.
 
-(* ---------- the part of ServeTCP before the copy loops ----------
-   result: what has been written to the upstream connection, the bytes read from the
-   client but written nowhere (lost), what the client connection still holds.
-   [None]: no upstream connection is made (handshake rejected). *)
-Record setup := { s_pre : str; s_lost : str; s_src : list str }.
+(* ---------- the part of ServeTCP before the copy loops ---------- *)
 
-Definition sni_setup (line : str) (segs : list str) : outcome (option setup) :=
+(* sni_proxy.go:45-130: the handshake through the bufio.Reader.  Result: what has been
+   written to the upstream connection (PROXY header, then out.Write(data)) and the reader
+   as it stands afterwards.  [None]: no upstream connection is made (handshake rejected). *)
+Definition sni_handshake (line : str) (segs : list str) : outcome (option (str * breader)) :=
   let b0 := new_reader 4096 segs in                          (* bufio.NewReader(in) *)
   do '(hdr, e1, b1) <- peek b0 9;                            (* tlsReader.Peek(9) *)
   if negb (e1 =? 0) then Ok None else
@@ -80,29 +79,71 @@ Definition sni_setup (line : str) (segs : list str) : outcome (option setup) :=
     | Panic => Panic
     | Err _ => Ok None
     | Ok [] => Ok None                                       (* server_name missing *)
-    | Ok _ =>
-        (* PROXY header, then out.Write(data); the copy then reads the raw connection
-           [in], not the bufio.Reader: whatever is still buffered is never forwarded *)
-        Ok (Some {| s_pre := line ++ data; s_lost := b_buf b2; s_src := b_src b2 |})
+    | Ok _ => Ok (Some (line ++ data, b2))
     end
   end.
 
-Definition tunnel_setup (k : kind) (pp : bool) (line : str) (segs : list str) : outcome (option setup) :=
+(* copyBuffer(out, tlsReader) (sni_proxy.go since c17abb6): the same loop, reading through
+   the bufio.Reader: buffered bytes first, then (buffer empty, 32 KiB >= 4096) straight from
+   the connection.  What was read is written; any error, io.EOF included, ends the loop. *)
+Fixpoint copy_reader_loop (fuel : nat) (m : nat) (b : breader) : option str :=
+  match fuel with
+  | O => None
+  | S f =>
+      let '(d, e, b1) := bread b m in
+      if negb (e =? 0) then Some d
+      else match copy_reader_loop f m b1 with
+           | Some r => Some (d ++ r)
+           | None => None
+           end
+  end.
+
+Definition reader_measure (b : breader) : nat := length (b_buf b) + src_measure (b_src b).
+
+Definition copy_from_reader (b : breader) : outcome str :=
+  match copy_reader_loop (S (reader_measure b)) copy_buf_size b with
+  | Some s => Ok s
+  | None => Err 77
+  end.
+
+(* what has been written to the upstream before the copy, and the client connection *)
+Record setup := { s_pre : str; s_src : list str }.
+
+Definition tunnel_setup (k : kind) (pp : bool) (line : str) (segs : list str) : setup :=
   match k with
-  | KTcp => Ok (Some {| s_pre := if pp then line else []; s_lost := []; s_src := segs |})
-  | KDyn => Ok (Some {| s_pre := []; s_lost := []; s_src := segs |})   (* tcp_dynamic_proxy.go never writes the header *)
-  | KSni => sni_setup (if pp then line else []) segs
-  | KWs => Ok (Some {| s_pre := []; s_lost := []; s_src := segs |})
+  | KTcp => {| s_pre := if pp then line else []; s_src := segs |}
+  | KDyn => {| s_pre := []; s_src := segs |}     (* tcp_dynamic_proxy.go never writes the header *)
+  | _ => {| s_pre := []; s_src := segs |}
   end.
 
 (* everything the upstream receives if the client->upstream direction runs to the
    client's EOF *)
 Definition upstream_stream (k : kind) (pp : bool) (line : str) (segs : list str) : outcome (option str) :=
-  do s <- tunnel_setup k pp line segs;
-  match s with
-  | None => Ok None
-  | Some st => do c <- copy_buffer (s_src st); Ok (Some (s_pre st ++ c))
+  match k with
+  | KSni =>
+      do h <- sni_handshake (if pp then line else []) segs;
+      match h with
+      | None => Ok None
+      | Some (pre, b) => do c <- copy_from_reader b; Ok (Some (pre ++ c))
+      end
+  | _ =>
+      let st := tunnel_setup k pp line segs in
+      do c <- copy_buffer (s_src st); Ok (Some (s_pre st ++ c))
   end.
+
+(* ---------- the unrepaired tcp+sni copier (before fix commit c17abb6) ----------
+   kept only for the refutation theorem C09_sni_leftover_refuted: the copy read the raw
+   connection [in], not the bufio.Reader, so whatever the reader still held was never
+   forwarded. *)
+Definition upstream_stream_sni_unrepaired (pp : bool) (line : str) (segs : list str) : outcome (option str) :=
+  do h <- sni_handshake (if pp then line else []) segs;
+  match h with
+  | None => Ok None
+  | Some (pre, b) => do c <- copy_buffer (b_src b); Ok (Some (pre ++ c))
+  end.
+(* the bytes that were stuck in the reader *)
+Definition sni_leftover_unrepaired (line : str) (segs : list str) : str :=
+  match sni_handshake line segs with Ok (Some (_, b)) => b_buf b | _ => [] end.
 
 (* ---------- ws_handler.go: the handshake reply ----------
    one out.Read(b) with len b = 1024; b[:n] is written to the client; the relay starts
@@ -272,12 +313,7 @@ Definition spec_b (k : kind) (pp : bool) (line stream : str) (cwait : bool) (ce 
   && (if req_cl then beq o_cl reply else true).
 
 (* ---------- the finding regions ---------- *)
-(* F-C09-1: bytes read past the ClientHello into the bufio.Reader *)
-Definition region_sni_leftover (k : kind) (line : str) (segs : list str) : bool :=
-  match k with
-  | KSni => match sni_setup line segs with Ok (Some st) => negb (beq (s_lost st) []) | _ => false end
-  | _ => false
-  end.
+(* F-C09-1 (bytes stuck in the bufio.Reader) was repaired by c17abb6: no region *)
 (* F-C09-2: the client half-closes without first waiting for the reply *)
 Definition region_half_close (cwait : bool) (ce : cend) : bool :=
   match ce with CHalf => negb cwait | _ => false end.
